@@ -213,7 +213,7 @@ def validate_traces(traces, maxn=8):
         with open(path, 'w') as f:
             for tid, evs in traces:
                 f.write(json.dumps(dict(tid=tid, ev=evs)) + '\n')
-        cfg = tlc.write_cfg(os.path.join(d, 'TraceKrylov.cfg'), spec='TraceSpec', constants=dict(MaxN=maxn),
+        cfg = tlc.write_cfg(os.path.join(d, 'TraceKrylov.cfg'), spec='TraceSpec', constants=pl_constants(MaxN=maxn),
                             invariants=CF_INVARIANTS)
         res = tlc.run(os.path.join(tlc.SPEC_DIR, 'TraceKrylov.tla'), cfg, workers=1, env=dict(TRACE_FILE=path),
                       coverage=True)
@@ -331,7 +331,7 @@ class Built:
         q0 = self.case['q0']
         b0 = [i for i, b in enumerate(self.case['blocks']) if b['q'] == q0][0]
         off = sum(b['n'] for b in self.case['blocks'][:b0])
-        qtot = self.leg.get_charge(self.leg.get_qindex(off)[0])
+        qtot = self.leg.chinfo.make_valid(self.leg.get_charge(self.leg.get_qindex(off)[0]))
         return npc.Array.from_ndarray(arr, [self.leg], dtype=dt, qtotal=qtot, labels=['p'])
 
     @staticmethod
